@@ -87,6 +87,10 @@ def _endings():
     add('act_stub_exception', 'exec', 'INTERNAL_ERROR', ['act'], step='execute')
     add('stub_exception_in_validation', 'exec', 'INTERNAL_ERROR', ['setup', 'cleanup'], step='pre_sds')
     add('undefined_symbol', 'exec', 'VALIDATION_ERROR', INSTR_PHASES)
+    # ... in the [conf] instruction that sets the actor (the interpreter of the file / source actor is a program like any other)
+    add('undefined_symbol_in_actor', 'exec', 'VALIDATION_ERROR', how='file')
+    add('undefined_symbol_in_actor', 'exec', 'VALIDATION_ERROR', how='source')
+    add('undefined_symbol_in_actor', 'exec', 'VALIDATION_ERROR', how='file_via_program_symbol')
     add('missing_home_file', 'exec', 'VALIDATION_ERROR', INSTR_PHASES)
     add('bad_integer', 'exec', 'VALIDATION_ERROR', ['assert'])
     add('stub_validation', 'exec', 'VALIDATION_ERROR', INSTR_PHASES, step='pre_sds')
@@ -321,6 +325,18 @@ def build(seed, tier, ending, status, mode, g, atc_exit=None, sweep=False):
     elif eid == 'undefined_symbol':
         insert(ph, {'k': 'real', 'text': g.choice(['def string X = @[UNDEFINED_SYM]@', 'file u.txt = @[UNDEFINED_SYM]@',
                                                   'run @ UNDEFINED_PROGRAM'])})
+    elif eid == 'undefined_symbol_in_actor':
+        how = ending['how']
+        files['home/interpreted.src'] = 'source for the file actor\n'
+        if how == 'file':
+            case['conf'].append({'k': 'real', 'e': 1, 'text': 'actor = file % atc @[UNDEFINED_SYM]@'})
+            case['act'] = {'lines': ['interpreted.src']}
+        elif how == 'source':
+            case['conf'].append({'k': 'real', 'e': 1, 'text': 'actor = source % atc "x @[UNDEFINED_SYM]@"'})
+            case['act'] = {'lines': ['source text']}
+        else:
+            case['conf'].append({'k': 'real', 'e': 1, 'text': 'actor = file @ UNDEFINED_PROGRAM_SYM'})
+            case['act'] = {'lines': ['interpreted.src']}
     elif eid == 'missing_home_file':
         insert(ph, {'k': 'real', 'text': g.choice(['copy no-such-file.txt', 'copy -rel-home no/such/file'])})
     elif eid == 'bad_integer':
